@@ -1,6 +1,7 @@
 import Claripy.VSA.Conc
 import ClaripyProofs.Lemmas.VSA.AddSub
 import ClaripyProofs.Lemmas.VSA.Lub
+import ClaripyProofs.Lemmas.VSA.Members
 /-!
 # C22 — joins, meets, widening and queries agree with the members
 
@@ -55,6 +56,24 @@ theorem C22_union_sup : JoinSound SI.union noGuard := by
 /-- non-vacuity: a wrapping and a non-wrapping operand -/
 example : (SI.new 4 3 14 4).WF ∧ (SI.new 4 2 5 9).WF ∧ (SI.new 4 3 14 4).mem 1 ∧
     SI.union (SI.new 4 3 14 4) (SI.new 4 2 5 9) = .ok (SI.new 4 1 14 9) := by decide
+
+/-! ## queries: cardinality, membership test (exact for every well-formed interval) -/
+
+/-- the member list (`lb, lb + stride, …` modulo `2^bits`) is exactly the member set, without repetitions -/
+theorem C22_members_exact (s : SI) (hw : s.WF) : s.members.Nodup ∧ ∀ x, x ∈ s.members ↔ s.mem x :=
+  ⟨members_nodup s hw, mem_members s hw⟩
+
+/-- `cardinality` equals the number of members -/
+theorem C22_cardinality_exact (s : SI) (hw : s.WF) : s.cardinality = .ok s.members.length :=
+  cardinality_exact s hw
+
+/-- `solution(v)` agrees with the member set (aligned or not, wrapping or not) -/
+theorem C22_solution_exact (s : SI) (hw : s.WF) (hnb : s.bottom = false) (v : Nat) (hv : v < 2 ^ s.bits) :
+    (s.solution (v : Int) = .ok true ∧ s.mem v) ∨ (s.solution (v : Int) = .ok false ∧ ¬ s.mem v) :=
+  solution_exact s hw hnb v hv
+
+example : (SI.new 4 5 13 7).members = [13, 2, 7] ∧ (SI.new 4 5 13 7).cardinality = .ok 3 ∧
+    (SI.new 4 5 13 7).solution 2 = .ok true ∧ (SI.new 4 5 13 7).solution 3 = .ok false := by decide
 
 /-! ## widen — false on the code (findings C22-widen-lower, -wrap, -upper, -unaligned) -/
 
